@@ -7,6 +7,7 @@ import SC.Lemmas.Buffer
 import SC.Lemmas.BufSize
 import SC.Lemmas.Merge
 import SC.Lemmas.BufVisible
+import SC.Lemmas.Attach
 namespace SC.Props
 open SC SC.B
 
@@ -62,6 +63,21 @@ theorem C05_reads_see_buffered_writes (s : B.State) (oi : Nat) (o : B.Obj)
     load (save s oi).1 oi = mergeInto ((save s oi).1.register oi) oi o (s.root o).toBase :=
   let h := serialized_write_visible s oi oi o o hs ho hb ho hb rfl hfit
   ⟨h.1, h.2.1, h.2.2.1⟩
+
+/-- C05 / C02 in buffered mode: every load of the buffer machine — the merge of the file content
+(first buffered access, unbuffered load) or of the buffered contents (serialized strategy, every
+buffered access) into the object — keeps the child handles: along any path on which memory and
+the merged data hold containers of the same kind, the node keeps its identity, and the merge does
+not raise (valid data, no duplicate keys). -/
+theorem C05_buffered_merge_keeps_handles (s : B.State) (oi : Nat) (o : B.Obj) (d : J) (p : List Seg)
+    (hv : Valid s.fam d) (hd : d.wf = true) (ht : (s.root o).wf = true)
+    (hk : kindsMatch p (s.root o) d = true) :
+    (mergeInto s oi o d).2 = none ∧
+    ∃ c c', Tr.sub p (s.root o) = some c ∧ Tr.sub p ((mergeInto s oi o d).1.root o) = some c' ∧
+      c'.id? = c.id? ∧ c.id?.isSome = true := by
+  obtain ⟨herr, c, c', h1, h2, h3, h4⟩ := attach s.fam p (s.root o) d s.next hv hd ht hk
+  refine ⟨by simpa [mergeInto] using herr, c, c', h1, ?_, h3, h4⟩
+  rw [mergeInto_root]; exact h2
 
 /-- non-vacuity and the whole scenario on the machine (shared memory, list): writes inside nested
 contexts of both kinds leave the file missing; the outermost exit writes the final content. -/
